@@ -246,7 +246,11 @@ func (n *trieNode) containsIP(ip net.IP, depth uint64) bool {
 	}
 	if n.bitmap != nil {
 		last := ip[len(ip)-1]
-		return n.bitmap.contains(last)
+		if n.bitmap.contains(last) {
+			return true
+		}
+		// Not a member as a single address, but prefixes longer than the bitmap
+		// depth are stored in this node's children, so keep looking.
 	}
 	b := getBitAt(ip, depth)
 	next := n.children[b]
